@@ -59,5 +59,6 @@ PROPS['C06'] = dict(
         dict(name='random', variant='asan', harness='c04_voices.cpp', quick=8000, thorough=100000, opts=dict(mode='c06', maxops=300), budget=60),
         dict(name='longhold', variant='plain', harness='c04_voices.cpp', quick=480, thorough=4800, opts=dict(mode='c06', longhold=1), budget=300, **{'as': 'random'}),
         dict(name='pressure', variant='asan', harness='c04_voices.cpp', quick=15000, thorough=200000, opts=dict(mode='c06', maxops=300, pressure=1), budget=60, **{'as': 'random'}),
+        dict(name='ports', variant='asan', harness='c04_voices.cpp', quick=4000, thorough=60000, opts=dict(mode='c06', ports=1), budget=60, **{'as': 'random'}),
     ],
 )
